@@ -32,11 +32,12 @@ TOKENS = ['uint:8', 'u5', 'int:7', 'hex:8', 'hex', 'bin:3', 'bin', 'oct:6', 'flo
           'e2m1mxfp', 'e8m0mxfp', 'mxint', '>H', '<hb', '=I', 'uint:n', 'int', 'uint', 'float', 'uint:0', 'uint:-1', 'foo', 'u', '2*u4', '3*(bin:1, pad:1)',
           'hex:7', 'float:12', 'bool:2', '', ',', 'uint:8=3', '0xff', '2*(', 'bytes:0', 'bits:0', 'pad:0', 'bin:0', 'uint:1000', 'pad', 'bool, bool', 'intle:8',
           'pad:99999999999999999999999', 'uint:18446744073709551616', 'bits:99999999999999999999', 'hex:340282366920938463463374607431768211456',
-          'x*(u8), 3*(u8)', '2*(u8), y*(bool)', '0*(u8)', '2*(2*(bool))', '3*bool, n*(u4)']
+          'x*(u8), 3*(u8)', '2*(u8), y*(bool)', '0*(u8)', '2*(2*(bool))', '3*bool, n*(u4)', '99999999999999999999*u8', '0*u8', '-1*u8', 'x*u8']
 BAD_STRINGS = ['', ' ', '0x', '0b2', '0xfg', 'uint:8=300', 'foo=1', '=', ':', '0o8', '1*', '*3', '2*(0b1', 'uint:8=,', 'ue=-1', 'float:32=abc', '0b1,,0b0',
                'int:0=0', '0X_F', 'bin=', 'bytes:1=a', 'bits:3=0b1', 'pad:-1', 'uint8=1, ', '()',
                'x*(0b1),3*(0b1)', 'a*(0b1), 2*(0x1)', '2*(0b1),x*(3*(0b1))', '(0b1)', '*(0b1)', '2*(0b1))', '-1*(0b1)', '99999999999999999999*(0b1)',
-               'pad:99999999999999999999999', 'uint:99999999999999999999999=1', '0b1, 2*(x*(0b1)), 3*(0b0)']
+               'pad:99999999999999999999999', 'uint:99999999999999999999999=1', '0b1, 2*(x*(0b1)), 3*(0b0)', '99999999999999999999*uint:8=1', '99999999999999999999*0b1',
+               '-1*uint:8=300', '0*0b1']
 FLOATS = [0.0, -0.0, 1.5, -2.25, 1e10, 65504.0, 65520.0, 1e39, -1e39, 3.4e38, 'nan', 'inf', '-inf', 5e-324, 448.0, 57344.0, 0.001]
 
 
@@ -165,7 +166,8 @@ class EChaos(Engine):
         if k < 0.3:
             return {'t': 'str', 'v': g.pick(BAD_STRINGS)}
         bits = g.bits(g.pick([0, 1, 3, 8, 8, 16, n, n, 33, 2000]))
-        form = g.pick(['str', 'str', 'Bits', 'BitArray', 'ConstBitStream', 'BitStream', 'bytes', 'bytearray', 'bools', 'bitarray', 'bytesio', 'memoryview', 'array', 'faulty_bools', 'tuple'])
+        form = g.pick(['str', 'str', 'Bits', 'BitArray', 'ConstBitStream', 'BitStream', 'bytes', 'bytearray', 'bools', 'bitarray', 'bytesio', 'memoryview', 'array', 'faulty_bools', 'tuple',
+                       'memoryview_strided', 'memoryview_reversed', 'memoryview_wide', 'bitarray_le', 'gen_bools'])
         return {'t': 'bits', 'form': form, 'bin': bits, 'fail_at': g.int(0, max(len(bits), 1))}
 
     def _iter_spec(self, g, n):
@@ -505,6 +507,20 @@ class EChaos(Engine):
                 return bytearray(kernel_bits_to_bytes(bits))
             if form == 'memoryview':
                 return memoryview(kernel_bits_to_bytes(bits))
+            if form == 'memoryview_strided':
+                # every other byte of a larger buffer: a memoryview that is not contiguous
+                raw = kernel_bits_to_bytes(bits)
+                return memoryview(bytes(b for x in raw for b in (x, 0xEE)))[::2]
+            if form == 'memoryview_reversed':
+                return memoryview(kernel_bits_to_bytes(bits)[::-1])[::-1]
+            if form == 'memoryview_wide':
+                raw = kernel_bits_to_bytes(bits)
+                raw = raw + b'\0' * ((-len(raw)) % 2)
+                return memoryview(raw).cast('H') if raw else memoryview(raw)
+            if form == 'bitarray_le':
+                return _ba.bitarray(bits, endian='little')
+            if form == 'gen_bools':
+                return (c == '1' for c in bits)
             if form == 'bools':
                 return [c == '1' for c in bits]
             if form == 'tuple':
